@@ -45,10 +45,10 @@ def compValsA (F : FilterSem) (ts : Arr) (fn t0 fac : Rat) (buf filt : Arr) : Op
   match ts with
   | ta :: tb :: _ =>
     let dt := tb - ta
-    if dt ≤ 0 then none else
+    if dt = 0 then none else
     let nb := nbuf (buf.getD 0 0) dt
     let na := nbuf (buf.getD 1 0) dt
-    if nb < 0 ∨ na < 0 then none else
+    if nb < 0 ∨ na < -1 then none else
     let nb := nb.toNat
     let na := na.toNat
     let tl := ts.getLastD 0
